@@ -1197,6 +1197,42 @@ let run_flock (path : string) =
    with End_of_file -> ());
   close_in ic
 
+
+(* notify mode: the transition system of Notify.v on a given schedule *)
+let run_notify (path : string) =
+  let ic = open_in path in
+  (try
+     while true do
+       let line = String.trim (input_line ic) in
+       if line = "" || line.[0] = '#' then ()
+       else begin
+         print_endline line;
+         (match toks line with
+          | ["nrun"; init; ths; sched] ->
+            let threads = List.map (fun sp ->
+                match sp.[0] with
+                | 'w' -> W0 (z_of_string (String.sub sp 2 (String.length sp - 2)))
+                | 's' -> S0 (z_of_string (String.sub sp 2 (String.length sp - 2)))
+                | _ -> C0) (String.split_on_char ',' ths) in
+            let acts = List.map (fun a ->
+                if a.[0] = 'x' then Cancel (nat_of_int (int_of_string (String.sub a 1 (String.length a - 1))))
+                else Step (nat_of_int (int_of_string a))) (String.split_on_char ',' sched) in
+            let s1 = nrun (ninit (z_of_string init) threads) acts in
+            (* a parked waiter whose channel has been closed wakes by itself: flush those enabled steps *)
+            let parked = List.concat (List.mapi (fun i p -> match p with W4 _ -> [Step (nat_of_int i)] | _ -> []) s1.threads) in
+            let s' = nrun s1 parked in
+            let st p = (match p with
+                | W0 _ -> "at:wait.enter" | W1 _ -> "at:wait.take" | W2 _ -> "at:wait.probe" | W3 _ -> "at:wait.put"
+                | W4 _ -> "at:park" | WOk _ -> "ok" | WClosed _ -> "closed" | WCanceled _ -> "canceled"
+                | S0 _ -> "at:set.take" | S1 _ -> "at:set.store" | S2 _ -> "at:set.close" | S3 -> "at:set.put" | SDone -> "done"
+                | C0 -> "at:close.take" | C1 _ -> "at:close.closeb" | C2 -> "at:close.closebarrier" | CDone -> "done" | CErr -> "err") in
+            print_endline ("= ok" ^ String.concat "" (List.mapi (fun i p -> Printf.sprintf " t%d=%s" i (st p)) s'.threads))
+          | _ -> ())
+       end
+     done
+   with End_of_file -> ());
+  close_in ic
+
 let () =
   match Array.to_list Sys.argv with
   | _ :: "hist" :: path :: _ -> run_hist path
@@ -1204,4 +1240,5 @@ let () =
   | _ :: "codec" :: path :: _ -> run_codec path
   | _ :: "ccheck" :: path :: _ -> run_ccheck path
   | _ :: "flock" :: path :: _ -> run_flock path
+  | _ :: "notify" :: path :: _ -> run_notify path
   | _ -> prerr_endline "usage: kvmodel hist <file>"; exit 2
